@@ -70,7 +70,7 @@ pub type Runner = fn(&str) -> Obs;
 /// is delivered the way a `macro_rules!` `$e:expr` forwards it, in an invisible group.
 pub const GROUPED: &str = "/*G*/";
 
-fn group_values(ts: proc_macro2::TokenStream, in_attr: bool) -> proc_macro2::TokenStream {
+pub fn group_values(ts: proc_macro2::TokenStream, in_attr: bool) -> proc_macro2::TokenStream {
     use proc_macro2::{Delimiter, Group, Spacing, TokenTree};
     let toks: Vec<TokenTree> = ts.into_iter().collect();
     let mut out: Vec<TokenTree> = vec![];
